@@ -1763,3 +1763,165 @@ def int_status_path(body, var, value, via, goals):
                 prev[n] = st
                 todo.append(n)
     return None
+
+
+# ------------------------------------------------------------------------------------------------
+# the same feasibility question when the status does not live in one local: it may be kept in a field of a state struct
+# (`self.rv`, reached through `&mut self` of helper methods spliced into the body) and copied between cells (R4.10)
+
+def place_key(body, pl, depth=8):
+    """Canonical name of a memory cell: (root local, projection tuple), seen through single-definition borrows
+    (`s = &mut X; (*s).f` is `X.f`) and whole-value moves (`s = move X; s.f` is `X.f`)."""
+    ba = BA.of(body)
+    l, proj = pl["l"], list(pl["p"])
+    for _ in range(depth):
+        d = ba.single_def(l)
+        if d is None or d[0] != "stmt" or l <= body.arg_count:
+            break
+        rv = d[3]
+        if rv["k"] in ("ref", "rawptr") and proj and proj[0] == "deref":
+            l, proj = rv["place"]["l"], list(rv["place"]["p"]) + proj[1:]
+            continue
+        if rv["k"] == "use" and op_place(rv["op"]) is not None and (proj or True):
+            src = op_place(rv["op"])
+            # a plain copy of an integer is a new cell (handled by the propagation); a move/copy of a struct or of a
+            # reference carries its fields / referent along
+            if not proj:
+                break
+            l, proj = src["l"], list(src["p"]) + proj
+            continue
+        break
+    return (l, tuple(proj))
+
+
+def status_family(body, seed_local):
+    """Cells the integer status travels through: the seed local and everything connected to it by plain copies."""
+    fam = {(seed_local, ())}
+    copies = []
+    for blk in body.blocks:
+        for st in blk["stmts"]:
+            if st["s"] == "assign" and st["rv"]["k"] == "use" and op_place(st["rv"]["op"]) is not None:
+                copies.append((place_key(body, st["place"]), place_key(body, op_place(st["rv"]["op"]))))
+    changed = True
+    while changed:
+        changed = False
+        for a, b in copies:
+            if (a in fam) != (b in fam):
+                fam |= {a, b}
+                changed = True
+    return fam
+
+
+def status_failure_blocks(body, fam, value=0):
+    """{block: constants} where a cell of the family is assigned a constant other than `value`."""
+    out = {}
+    for i in sorted(BA.of(body).live):
+        for st in body.blocks[i]["stmts"]:
+            if st["s"] == "assign" and st["rv"]["k"] == "use" and place_key(body, st["place"]) in fam:
+                c = const_int(st["rv"]["op"])
+                if c is not None and c != value:
+                    out.setdefault(i, set()).add(c)
+    return out
+
+
+def status_path_avoiding(body, fam, value, via, goals, avoid=()):
+    return status_path(body, fam, value, via, goals, avoid=frozenset(avoid))
+
+
+def status_path(body, fam, value, via, goals, avoid=frozenset()):
+    """int_status_path over a family of cells: the abstract state maps each cell to 'eq' / 'ne' (absent = unknown);
+    `cell := const` fixes it, `cell := copy other` copies the knowledge, any other write forgets it, a call that is
+    handed a mutable borrow of a cell's root forgets the cells below that root; a branch on `cell ==/!= value` (directly
+    or on a fresh copy) takes only the arm the state allows and otherwise learns, for the temporary and for the cell
+    it was copied from. More unknowns mean more paths, never fewer."""
+    from core import FAL
+    fa = FAL.of(body)
+    ba = BA.of(body)
+    roots = {r for (r, _) in fam}
+    sws = {}
+    for (sw, ne_t, eq_t, x) in cmp_const_switches(body, value):
+        cells = []
+        cur = (x, ())
+        for _ in range(6):
+            if cur in fam:
+                cells.append(cur)
+            d = ba.single_def(cur[0]) if not cur[1] else None
+            if d and d[0] == "stmt" and d[3]["k"] == "use" and op_place(d[3]["op"]) is not None:
+                cur = place_key(body, op_place(d[3]["op"]))
+            else:
+                break
+        if cells:
+            sws[sw] = (ne_t, eq_t, cells)
+    goals = set(goals)
+
+    def after(bb, env):
+        env = dict(env)
+        for st in body.blocks[bb]["stmts"]:
+            if st["s"] != "assign":
+                continue
+            k = place_key(body, st["place"])
+            if k in fam:
+                if st["rv"]["k"] == "use":
+                    c = const_int(st["rv"]["op"])
+                    src = op_place(st["rv"]["op"])
+                    if c is not None:
+                        env[k] = "eq" if c == value else "ne"
+                    elif src is not None and env.get(place_key(body, src)) is not None:
+                        env[k] = env[place_key(body, src)]
+                    else:
+                        env.pop(k, None)
+                else:
+                    env.pop(k, None)
+            elif not k[1] and k[0] in roots:
+                # the whole root is overwritten
+                for c_ in [c_ for c_ in env if c_[0] == k[0]]:
+                    env.pop(c_)
+        t = body.blocks[bb]["term"]
+        if t["t"] == "call":
+            dk = place_key(body, t["dest"])
+            env.pop(dk, None)
+            for a in t["args"]:
+                al = op_local(a)
+                if al is None:
+                    continue
+                p = ba.resolve_ref(al)
+                if p is not None and place_key(body, p)[0] in roots:
+                    r0 = place_key(body, p)[0]
+                    for c_ in [c_ for c_ in env if c_[0] == r0 and c_[1]]:
+                        env.pop(c_)
+        return env
+
+    start = (0, (), (), via == 0)
+    prev = {start: None}
+    todo = [start]
+    while todo:
+        st = todo.pop(0)
+        bb, envt, senv, passed = st
+        if len(prev) > 400000:
+            return ba.path([via], list(goals))
+        if bb in goals and passed and not (bb == via and prev[st] is None):
+            out = []
+            while st is not None:
+                out.append(st[0])
+                st = prev[st]
+            return list(reversed(out))
+        env2 = after(bb, dict(senv))
+        for (x, e) in fa.step(bb, envt):
+            if passed and x in avoid:
+                continue
+            env3 = env2
+            if bb in sws:
+                ne_t, eq_t, cells = sws[bb]
+                known = {env2.get(c_) for c_ in cells} - {None}
+                want = "eq" if (x == eq_t and x != ne_t) else ("ne" if (x == ne_t and x != eq_t) else None)
+                if want is not None:
+                    if known and want not in known:
+                        continue
+                    env3 = dict(env2)
+                    for c_ in cells:
+                        env3[c_] = want
+            n = (x, e, tuple(sorted(env3.items())), passed or x == via)
+            if n not in prev:
+                prev[n] = st
+                todo.append(n)
+    return None
